@@ -94,7 +94,7 @@ fn mutate(rng: &mut Rng, text: &str) -> (String, &'static str) {
         return ((*rng.pick(STRAY)).to_string(), "stray_only");
     }
     let i = rng.below(toks.len());
-    let kind = match rng.below(14) {
+    let kind = match rng.below(16) {
         0 => {
             toks.remove(i);
             "delete_token"
@@ -167,6 +167,15 @@ fn mutate(rng: &mut Rng, text: &str) -> (String, &'static str) {
             }
             return (cs.into_iter().collect(), "char_level");
         }
+        14 => {
+            // a line ends right after a token (no blank in between)
+            toks.insert(i + 1, "\n".to_string());
+            "line_break_after_token"
+        }
+        15 => {
+            toks.insert(i, format!("{}\n", *rng.pick(STRAY)));
+            "stray_at_end_of_line"
+        }
         _ => {
             // capture / query oriented
             let extra = *rng.pick(&[" @extra", " @a @b", "? @q", "* @many", " (#eq? @x \"y\")", " @x.y"]);
@@ -180,6 +189,33 @@ fn mutate(rng: &mut Rng, text: &str) -> (String, &'static str) {
         }
     };
     (toks.concat(), kind)
+}
+
+/// A scan over a long subject of multi-byte characters whose arm fails at run time: the error
+/// context quotes the scanned text and the arm, whatever their length and byte alignment.
+fn failing_scan_arm(rng: &mut Rng) -> String {
+    const CH: &[&str] = &["a", "é", "日", "😀", "ß", "b", " "];
+    let n = rng.range(10, 90);
+    let subject: String = (0..n).map(|_| *rng.pick(CH)).collect();
+    let re = *rng.pick(&[".", "[^x]", "(.)(.)?", "\\S+", "..?.?"]);
+    let fail = *rng.pick(&[
+        "node n attr (n) x = (plus 1 \"a\")",
+        "print (no-such-function)",
+        "edge \"s\" -> (node)",
+        "node n attr (n) x = $7",
+        "node n attr (n) a = 1 attr (n) a = 2",
+        "let v = (format \"{}\")",
+    ]);
+    let arms = if rng.chance(1, 3) {
+        format!("\"{}\" {{ scan $0 {{ \"{}\" {{ {} }} }} }}", re, re, fail)
+    } else {
+        format!("\"{}\" {{ {} }}", re, fail)
+    };
+    if rng.chance(1, 2) {
+        format!("(module) {{ scan \"{}\" {{ {} }} }}", subject, arms)
+    } else {
+        format!("(module) {{ let s = \"{}\" scan s {{ {} }} }}", subject, arms)
+    }
 }
 
 pub fn nesting_depth(s: &str) -> usize {
@@ -356,6 +392,7 @@ impl Prop for C05 {
                     };
                     print_wild(&mut f, rng).0
                 }
+                8 => failing_scan_arm(rng),
                 _ => (*rng.pick(SEEDS)).to_string(),
             };
             globals.entry("filename".into()).or_insert_with(|| crate::model::value::MVal::str("src/pkg/__init__.py"));
